@@ -37,6 +37,8 @@ let parse_op (s : string) : op =
   | ["info"; h] -> OInfo (z_of_dec h)
   | ["rlimit"] -> ORLimit
   | ["reset"] -> OReset true        (* Message.Reset: re-arms Message.initReadLimit's value *)
+  | ["setlimit"; n] -> OResetLimit (z_of_dec n)     (* Message.ResetReadLimit *)
+  | ["unread"; n] -> OUnread (z_of_dec n)           (* Message.Unread *)
   | ["walk"; h; d; p; f] -> OWalk (z_of_dec h, z_of_dec d, z_of_dec p, z_of_dec f)
   | _ -> failwith ("bad op " ^ s)
 
